@@ -7,6 +7,7 @@ import (
 	"path/filepath"
 	"strings"
 	"sync"
+	"time"
 
 	"verifharness/client"
 	"verifharness/core"
@@ -133,6 +134,12 @@ func runC18(r *core.Run) {
 	r.Rule("wallet stores filled with harness-minted proofs of arbitrary denominations (random multisets, active + inactive keysets, input_fee_ppk of the active keyset in {0,100,250,500,1000,2000}); from a fresh copy of store and mint per case Wallet.Send is called for every amount 1..min(balance,200) and larger random amounts, in both fee modes; a success must hand out proofs worth exactly amount (or amount + the mint's fee for exactly those proofs, computed from each proof's keyset), UNSPENT at the mint, pairwise distinct, no longer spendable in the wallet, with the balance reduced by the value sent plus the swap fees seen on the wire; every seventh amount is also sent as the first operation after a rotation (to each fee rate in turn) that the loaded wallet has not seen; a refusal is a violation when amount + fee(all proofs held) + feeBound(sent) <= balance; non-trivial = distinct (store, amount, fee mode) sends evaluated")
 	r.Assume("feeBound(sent) = fee of popcount(amount)+popcount(fee)+1 proofs of the active keyset, so the completeness premise is conservative")
 	nstores := pick(r, 6, 60)
+	if !quick(r) && r.Splits() {
+		// one child process per store: every case loads a mint instance, and every instance leaves a
+		// descriptor and a goroutine behind (InitSQLite); ~15 000 of them would come close to the limit
+		core.Parallel(nstores, 8, func(si int) { r.RunPart(fmt.Sprintf("store%d/", si), 30*time.Minute) })
+		nstores = 0
+	}
 	core.Parallel(nstores, 8, func(si int) {
 		tag := fmt.Sprintf("store%d", si)
 		if !r.Want(tag) {
